@@ -142,6 +142,13 @@ def run(tier, seed):
                                 {"op": "run_spawned", "t": 0, "m": 2, "s": 1}, {"op": "compile", "t": 0, "m": 2, "s": 1, "record": True},
                                 {"op": "run_ended", "t": 0, "m": 2, "s": 1}]),
     ]
+    # more than 10^4 non-message frames between an old message and the next one, the messages+runs sidecar unreadable:
+    # the window for the OLD anchor is served by the full-sidecar fallback
+    longs.append(("10k_nonmessage_gap_mr_garbage",
+                  [{"op": "ensure_default"}, {"op": "message", "t": 0}, {"op": "run_spawned", "t": 0, "m": 0, "s": 0},
+                   {"op": "filler", "t": 0, "n": 10500, "kind": "cursor"}, {"op": "run_ended", "t": 0, "m": 0, "s": 0},
+                   {"op": "message", "t": 0}, {"op": "message", "t": 0},
+                   {"op": "fault", "t": 0, "file": "mr", "kind": "garbage"}]))
     if thorough:
         longs.append(("10k_faulted", longs[0][1] + [{"op": "fault", "t": 0, "file": "mr", "kind": "delete"},
                                                     {"op": "fault", "t": 0, "file": "seek", "kind": "garbage"}]))
